@@ -23,7 +23,7 @@ const AS_LIMIT: u64 = 1 << 30;
 const FSIZE_LIMIT: u64 = 1 << 30;
 const MAX_PANICS_PER_RUN: usize = 6;
 /// CPU-time budget of one exercise step / decoder item, and of the whole (valid-input) build
-const STEP_TIMEOUT_DEFAULT_S: u32 = 60;
+const STEP_TIMEOUT_DEFAULT_S: u32 = 20;
 const BUILD_TIMEOUT_S: u32 = 60;
 
 /// Step budget; `VSIM_DEBUG=<seconds>` overrides it (triage aid: is a "hang" merely slow?).
@@ -696,7 +696,14 @@ fn dec_items_inner(s: &Seeded, tier: Tier, out: &mut RunOutcome, log: &mut Log, 
     let n = if tier == Tier::Thorough { 200 } else { 120 };
     let _ = t1;
     let t2 = real_ms();
-    let items = decoders::gen_items(&mut s.rng.fork("items"), &h, root, n);
+    let mut items = decoders::gen_items(&mut s.rng.fork("items"), &h, root, n);
+    // decoders known to abort / loop on corrupted sizes go last: a trapped abort ends the run, and
+    // the other items of the run should not be lost with it (stable sort: order stays seeded)
+    items.sort_by_key(|it| match it.decoder.as_str() {
+        "catalog" | "hnsw_file" | "wal_dir" => 2,
+        "btree_file" => 1,
+        _ => 0,
+    });
     let _ = t2;
     let _ = std::fs::remove_dir_all(root.join("db"));
     let _ = std::fs::remove_dir_all(root.join("old"));
